@@ -698,3 +698,45 @@ def thm_share(A: "real", B: "real", C: "real", D: "real", lo: "real", hi: "real"
     ensures(B * C - A * D <= (hi - lo) * D * C and A * D - B * C <= (hi - lo) * D * C, id="step: bounded by the spread of x")
     ensures(full - pruned <= share * (hi - lo) and pruned - full <= share * (hi - lo),
             id="|mean over all entries - mean over the window| <= (left-out share of the total weight) * (max x - min x)")
+
+
+# ------------------------------------------------------------------ samplers: real BMCI objects for concrete replays and the
+# bounded pass 'contract-on-samples' (the clauses about _locals and about all reals are skipped there)
+def _real_case(rng):
+    nprng = _np.random.RandomState(rng.randint(0, 2**31 - 1))
+    n, m = rng.choice([1, 2, 3, 7, 20]), rng.choice([1, 2, 3])
+    y = nprng.normal(size=(n, m))
+    x = nprng.normal(size=n) if rng.random() < 0.8 else _np.full(n, 1.5)
+    A = nprng.normal(size=(m, m))
+    S = A @ A.T + _np.eye(m) * 0.2
+    yo = (y[rng.randrange(n)] + nprng.normal(size=m) * rng.choice([0.0, 0.1, 1.0, 30.0]))
+    return y, x, S, yo, n, m
+
+
+def _real_bmci(rng):
+    import warnings
+    y, x, S, yo, n, m = _real_case(rng)
+    with warnings.catch_warnings():
+        warnings.simplefilter("ignore")
+        b = BMCI(y.copy(), x.copy(), S.copy())
+    b.x_sorted_inds = b.x_sorted_inds.view(_GhostInv)
+    b.x_sorted_inds.ghost_inverse = _np.argsort(b.x_sorted_inds)
+    b.ghost_k = rng.randrange(max(1, n))
+    return b, yo, n, m
+
+
+class _GhostInv(_np.ndarray):
+    """ndarray that can carry the ghost inverse permutation (an attribute) in replays"""
+
+
+def _x2(rng):
+    # (x2_max = 0 with an observation identical to an entry is the float64 corner of the known finding
+    # bounded/float-x2max0-identical-entry: it has its own check and is kept out of these samples)
+    return rng.choice([-1.0, 1e-6, 0.05, 1.0, 20.0])
+
+
+c_init.sampler = lambda rng: (lambda y, x, S, yo, n, m: dict(self=object.__new__(BMCI), y=y, x=x, s_o=S))(*_real_case(rng))
+c_gp.sampler = lambda rng: (lambda b, yo, n, m: dict(self=b, y_obs=yo if rng.random() < 0.5 else yo.reshape(1, -1), y_database=b.y[:rng.randint(0, n)]))(*_real_bmci(rng))
+c_fh.sampler = lambda rng: (lambda b, yo, n, m: dict(self=b, y_obs=yo if rng.random() < 0.5 else yo.reshape(1, -1), x2_max=abs(_x2(rng))))(*_real_bmci(rng))
+c_w.sampler = lambda rng: (lambda b, yo, n, m: dict(self=b, y_obs=yo if rng.random() < 0.5 else yo.reshape(1, -1), x2_max=_x2(rng)))(*_real_bmci(rng))
+c_predict.sampler = lambda rng: (lambda b, yo, n, m: dict(self=b, y_obs=yo.reshape(1, -1), x2_max=_x2(rng)))(*_real_bmci(rng))
